@@ -60,10 +60,17 @@ def getattr_value(E, path, o, name, frame):
         if tag == "ExtV":
             return ext_getattr(E, path, o, name)
         if tag == "ClsV":
+            if name == "__name__":
+                f = E.uf("cls_name", z3.IntSort(), z3.StringSort())
+                return SStr([Atom(f(E.PV.cls(o.term)), ("cls_name", o.term))])
             raise Unsupported("attribute of symbolic class")
         if tag in ("NoneV", "BoolV", "IntV"):
             return MISSING
         raise Unsupported(f"getattr on {tag}")
+    if name.startswith("__") and isinstance(o, (str, SStr, ListObj, DictObj, tuple)):
+        if name == "__class__":
+            return E.class_by_qualname(_static_mro(E, o)[0])
+        raise Unsupported(f"dunder attribute {name} of a builtin value")
     if isinstance(o, (str, SStr)):
         if hasattr(str, name):
             return Builtin("str." + name, o)
